@@ -11,6 +11,11 @@ DB_SKEL = ["DB.search", "DB.rawset", "DB.run", "DB.flushImmutable", "DB.Close", 
            "levelManager.searchLowerBound", "levelManager.flushToL0", "levelManager.checkAndCompact", "levelManager.compactL0", "levelManager.compactLN",
            "levelManager.discardStaleEntries", "oracle.readTs", "oracle.newCommitTs", "oracle.doneRead", "oracle.doneCommit", "oracle.cleanUpCommittedTxns", "oracle.discardAtOrBelow"]
 
+FS_TB = ["the operating system: a completed write/rename/remove is visible to a later reader; only fsynced bytes survive a power loss; os file calls behave as documented",
+         "trace content (which entries a write carries) is decoded from the files with the repository's own decoders (tied by C11)"]
+FS_SKEL = ["wal:WAL.Write", "wal:WAL.Delete", "wal:Create", "wal:WAL.Read", "levelManager.writeTable", "levelManager.flushToL0", "levelManager.compactL0",
+           "levelManager.compactLN", "levelManager.recover", "memtable.recover", "memtable.set", "DB.flushImmutable", "DB.Close", "DB.run", "DB.rawset", "Open"]
+
 PROPS = {
     "C01": {
         "lean": "Originium.Props.C01",
@@ -27,6 +32,31 @@ PROPS = {
         "trusted_base": DB_TB + ["recovery rebuilds handles from files: C11_table_roundtrip; wal replay after a clean Close is empty (the directory listing is checked by the suite)"],
         "assumptions": [],
         "explanation": "Close = drain + flush as model steps (always enabled), Open recomputes nextTs from stored versions = the old counter (maxTs_present)",
+    },
+    "C03": {
+        "lean": "Originium.Props.C03",
+        "suites": ["key", "crash"],
+        "skeleton_funcs": FS_SKEL,
+        "trusted_base": DB_TB + FS_TB,
+        "assumptions": ["process-crash model: every completed file-system call persists; one hook call = one operation = one crash point; a wal batch is one write call",
+                        "which operations the engine emits (layer ii) is tied dynamically: the real trace must be accepted by Disk.accept on every run; it is not proved from a program model"],
+        "explanation": "guarded-operation disk model: Inv/WF/Kept proved for every accepted event (tinv_accept), hence at every crash point incl. inside recovery; recover yields a DB.Inv state; acknowledged entries visible; crash suite replays the real fs trace through the guards and opens a crash image before every fs operation",
+    },
+    "C04": {
+        "lean": "Originium.Props.C04",
+        "suites": ["key", "crash"],
+        "skeleton_funcs": FS_SKEL + ["Txn.Commit", "DB.rawset", "memtable.set"],
+        "trusted_base": DB_TB + FS_TB,
+        "assumptions": ["process-crash model only (a torn batch belongs to C14, which claims acknowledged commits only)"],
+        "explanation": "a transaction reaches the disk through exactly one commit event carrying its whole batch; written batches stay kept, unwritten ones are absent; crash suite checks all-or-nothing of the in-flight transaction on every image",
+    },
+    "C14": {
+        "lean": "Originium.Props.C14",
+        "suites": ["key", "codec", "crash"],
+        "skeleton_funcs": FS_SKEL,
+        "trusted_base": DB_TB + FS_TB,
+        "assumptions": ["directory operations (create, rename, remove) are ordered and durable, as the property states; only file contents after the last fsync can be lost"],
+        "explanation": "CutOf (wals keep at least their synced records, tmp files arbitrary, published tables intact) preserves Inv and WF; recover on any cut disk serves every acknowledged entry; crash suite cuts unsynced tails of every file at several lengths at every crash point",
     },
     "C05": {
         "lean": "Originium.Props.C05",
